@@ -38,7 +38,7 @@ fn push_bytes(out: &mut Vec<u8>, b: &[u8]) {
 /// All seeds of one session (a session with snap/back yields one seed per branch).
 pub fn seeds_of(s: &Session) -> Vec<Vec<u8>> {
     let mut r = Rng(0x5eed);
-    let head = vec![geom_byte(s.columns, &COLS, 128), geom_byte(s.lines, &LINES, 40)];
+    let head = vec![geom_byte(s.columns, &COLS, 40), geom_byte(s.lines, &LINES, 40)];
     let mut cur = head.clone();
     let mut snap: Option<Vec<u8>> = None;
     let mut out = vec![];
@@ -46,8 +46,20 @@ pub fn seeds_of(s: &Session) -> Vec<Vec<u8>> {
         match op {
             Op::Api(Call::Resize(l, c)) => {
                 let l = l.unwrap_or(s.lines).clamp(1, 40);
-                let c = c.unwrap_or(s.columns).clamp(1, 140);
-                cur.extend_from_slice(&[0xFF, 0x01, (l - 1) as u8, (c - 1) as u8]);
+                let c = c.unwrap_or(s.columns);
+                let cb = if (1..=24).contains(&c) {
+                    (c - 1) as u8
+                } else {
+                    // the nearest entry of the width table
+                    let mut best = 0usize;
+                    for (i, x) in COLS.iter().enumerate() {
+                        if (*x as i64 - c as i64).abs() < (COLS[best] as i64 - c as i64).abs() {
+                            best = i;
+                        }
+                    }
+                    200 + best as u8
+                };
+                cur.extend_from_slice(&[0xFF, 0x01, (l - 1) as u8, cb]);
             }
             Op::Api(Call::Display) => cur.extend_from_slice(&[0xFF, 0x00]),
             Op::Api(c) => {
@@ -85,5 +97,32 @@ pub fn seeds_of(s: &Session) -> Vec<Vec<u8>> {
         out.push(cur);
     }
     out.retain(|x| x.len() <= 4096);
+    out
+}
+
+/// Seeds of the API target: the direct calls of a session (feeds are left out; a session with
+/// snap/back yields one seed per branch).
+pub fn api_seeds_of(s: &Session) -> Vec<Vec<u8>> {
+    let mut cur: Vec<Call> = vec![];
+    let mut snap: Option<Vec<Call>> = None;
+    let mut out = vec![];
+    for op in &s.ops {
+        match op {
+            Op::Api(c) => cur.push(c.clone()),
+            Op::Snap => snap = Some(cur.clone()),
+            Op::Back => {
+                if let Some(p) = &snap {
+                    if cur.len() > p.len() {
+                        out.push(crate::apifz::encode(s.columns, s.lines, &cur));
+                        cur = p.clone();
+                    }
+                }
+            }
+            _ => {}
+        }
+    }
+    if !cur.is_empty() && snap.as_ref().map(|p| cur.len() > p.len()).unwrap_or(true) {
+        out.push(crate::apifz::encode(s.columns, s.lines, &cur));
+    }
     out
 }
